@@ -186,6 +186,19 @@ def _validator(L, valid: Func):
                         lt, rt = norm(l), norm(r)
                         if "st_mtime" not in lt + rt and "mtime" not in txt.lower():
                             continue  # not a freshness comparison
+                        # a running maximum of the cache files' mtimes proves only that the NEWEST cache file is fresh
+                        for side in (t.left, t.comparators[0]):
+                            if isinstance(side, ast.Name):
+                                acc = [ev.node.value for ev in p.events[:i_e] if ev.kind == "stmt" and isinstance(ev.node, ast.Assign) and any(is_name(tt, side.id) for tt in ev.node.targets)]
+                                if acc and isinstance(acc[-1], ast.Call) and dotted(acc[-1].func) == "max" and any(is_name(a_, side.id) for a_ in acc[-1].args) and "st_mtime" in norm(acc[-1]) and "fasta" not in norm(acc[-1]):
+                                    ok, why = False, f"the freshness test compares '{side.id}', the maximum of the cache files' mtimes ({norm(acc[-1])[:60]}), with the FASTA: one stale cache file beside a fresh one is accepted"
+                                    break
+                        else:
+                            if "st_mtime" not in lt or "st_mtime" not in rt:
+                                raise AnalysisError(f"{valid.short}: freshness comparison '{txt}' is between values whose origin is not a plain <file>.stat().st_mtime on this path ('{lt[:40]}' vs '{rt[:40]}'): form not understood")
+                        if not ok and "maximum of the cache" in why:
+                            L.fail("R2", valid.short, why, valid.loc(), witness={"history": "touch genome.fa.fai (or rewrite only the .agp) after editing the FASTA"})
+                            return
                         if "st_mtime" not in lt or "st_mtime" not in rt:
                             raise AnalysisError(f"{valid.short}: freshness comparison '{txt}' is between values whose origin is not a plain <file>.stat().st_mtime on this path ('{lt[:40]}' vs '{rt[:40]}'): form not understood")
                         txt = f"{lt} {type(op).__name__} {rt}"
